@@ -61,13 +61,18 @@ def lossless(seed, n):
         tm = r.choice([[b"%H", b"%M", b"%E*S"], [b"%H", b"%M", b"%S", b"%E*f"], [b"%H", b"%M", b"%E15S"], [b"%H", b"%M", b"%E18S"],
                        [b"%H", b"%M", b"%S", b"%E15f"], [b"%H", b"%M", b"%E16S"]])
         off = r.choice([b"%E*z", b"%::z", b"%:::z", b"%E*z", b"%z", b"%Ez", b"%:z"])
+        # whole seconds through %E0S ("like %S") with the full fraction as an item of its own, before or after it
+        frac_item = None
+        if r.random() < 0.15:
+            tm = [b"%H", b"%M", b"%E0S"]
+            frac_item = r.choice([b"%E*f", b"%E15f", b"%E*f"])
         # the hour through the 12-hour clock: %I with %p, the marker before or after it, anywhere in the format
         if r.random() < 0.25:
             tm = [b"%I" if x == b"%H" else x for x in tm]
             date = date + [b"%p"] if r.random() < 0.5 else date
             if b"%p" not in date:
                 tm = tm + [b"%p"] if r.random() < 0.5 else [b"%p"] + tm
-        parts = [year] + date + [off]
+        parts = [year] + date + [off] + ([frac_item] if frac_item else [])
         # redundant %O-modified conversions (handed to the C library) repeating a field the format already carries: they
         # change nothing about the instant, wherever they stand relative to the hour / AM-PM / seconds fields
         if r.random() < 0.35:
